@@ -7,7 +7,31 @@ cd "$(dirname "$0")/.."
 wt=/tmp/seeded-$pid-$$
 tools/mk_scratch_repo.sh $wt >/dev/null 2>&1 || { echo "cannot create worktree"; exit 2; }
 ( cd $wt && git apply "$d/patch.diff" ) || { echo "patch does not apply"; git -C /repo worktree remove --force $wt; exit 2; }
-if [ -f "$d/c.diff" ]; then ( cd $wt && patch -p0 -s < "$d/c.diff" 2>/dev/null || patch -s -p1 < "$d/c.diff" 2>/dev/null || { f=$(grep -m1 '^+++ ' "$d/c.diff" | awk '{print $2}' | sed "s#.*/src/biotite/#src/biotite/#"); patch -s "$f" < "$d/c.diff"; } ); fi
+if [ -f "$d/c.diff" ]; then
+  # c.diff was made with `diff -u /repo/src/...c <worktree>/src/...c` (possibly several files): apply each to the scratch tree and rebuild its .so
+  /venv/bin/python - "$d/c.diff" "$wt" <<'PY'
+import re, subprocess, sys, sysconfig, os
+diff, wt = sys.argv[1], sys.argv[2]
+text = open(diff).read()
+parts = re.split(r'(?m)^(?=--- )', text)
+import numpy
+for part in parts:
+    m = re.search(r'^\+\+\+ (\S+)', part, re.M)
+    if not m:
+        continue
+    rel = m.group(1)
+    rel = rel[rel.index('src/biotite/'):]
+    tgt = os.path.join(wt, rel)
+    p = subprocess.run(['patch', '-s', tgt], input=part, text=True, capture_output=True)
+    print('c.diff ->', rel, 'rc', p.returncode, p.stdout[-200:], p.stderr[-200:])
+    cpp = tgt.endswith('.cpp')
+    so = re.sub(r'\.(c|cpp)$', '.cpython-312-x86_64-linux-gnu.so', tgt)
+    cmd = (['g++', '-std=c++11'] if cpp else ['gcc']) + ['-shared', '-fPIC', '-O1', '-w', '-DNPY_NO_DEPRECATED_API=NPY_1_7_API_VERSION',
+          '-I' + sysconfig.get_paths()['include'], '-I' + numpy.get_include(), tgt, '-o', so]
+    r = subprocess.run(cmd, capture_output=True, text=True)
+    print('rebuilt', os.path.basename(so), 'rc', r.returncode, r.stderr[-300:])
+PY
+fi
 if [ -f "$d/demo.py" ]; then
   PYTHONPATH=$wt/src /venv/bin/python "$d/demo.py" >/dev/null 2>&1; echo "demo on mutated tree: exit $?"
   /venv/bin/python "$d/demo.py" >/dev/null 2>&1; echo "demo on /repo: exit $?"
